@@ -166,7 +166,12 @@ func genArgs(r *rand.Rand, entries []treeEntry, root string) ([]string, string) 
 			args, forms = append(args, "./..."), append(forms, "dot-ellipsis")
 		case k <= 4 && len(dirs) > 0:
 			d := dirs[r.Intn(len(dirs))]
-			switch r.Intn(9) {
+			switch r.Intn(11) {
+			case 9:
+				// the argument ends in "..": the parent of d, not d with its dots trimmed off
+				args, forms = append(args, d+"/.."), append(forms, "dir/..")
+			case 10:
+				args, forms = append(args, filepath.Join(root, d)+"/.."), append(forms, "abs-dir/..")
 			case 5:
 				args, forms = append(args, filepath.Join(root, d)+"/."), append(forms, "abs-dir/.")
 			case 6:
